@@ -406,12 +406,15 @@ func ClientCheck(sc sim.CScenario, h *sim.CHistory) []Problem {
 			add("C04/reply-consumed-twice", "the reply at record/position %s completed several requests: %s", where, who)
 		}
 	}
-	// server-initiated requests
-	for _, r := range replies {
-		_ = r
+	// server-initiated requests: each one sent while the client was up is handed
+	// to its handler exactly once (several may carry one id or one payload)
+	type sreq struct {
+		n, must int // sent; sent, delivered before any stop cause and settled
+		example string
 	}
+	noteReqs, callReqs := map[string]*sreq{}, map[string]*sreq{}
 	for _, e := range h.Events {
-		if e.Kind != "peer-sending" {
+		if e.Kind != "peer-sending" || sc.Cfg.NoHandlers {
 			continue
 		}
 		for _, it := range splitAny([]byte(e.Data)) {
@@ -425,16 +428,27 @@ func ClientCheck(sc sim.CScenario, h *sim.CHistory) []Problem {
 				continue
 			}
 			delivered := stopSeq < 0 || e.Seq < stopSeq
+			tab, k := callReqs, strings.Trim(string(m.ID), `"`)
 			if len(m.ID) == 0 {
-				if notes[string(m.Params)] > 1 || (delivered && notes[string(m.Params)] != 1 && settledBefore(quiesces, e.Seq, stopSeq)) {
-					add("C04/server-notification-delivery", "server notification %s was handed to OnNotify %d times", it, notes[string(m.Params)])
-				}
-			} else {
-				id := strings.Trim(string(m.ID), `"`)
-				if cbEnter[id] > 1 || (delivered && cbEnter[id] != 1 && settledBefore(quiesces, e.Seq, stopSeq)) {
-					add("C04/server-callback-delivery", "server call %s was handed to OnCallback %d times", it, cbEnter[id])
-				}
+				tab, k = noteReqs, string(m.Params)
 			}
+			if tab[k] == nil {
+				tab[k] = &sreq{example: string(it)}
+			}
+			tab[k].n++
+			if delivered && settledBefore(quiesces, e.Seq, stopSeq) {
+				tab[k].must++
+			}
+		}
+	}
+	for k, r := range noteReqs {
+		if notes[k] > r.n || notes[k] < r.must {
+			add("C04/server-notification-delivery", "server notification %s was sent %d times (%d of them certainly before the client stopped) and handed to OnNotify %d times", r.example, r.n, r.must, notes[k])
+		}
+	}
+	for k, r := range callReqs {
+		if cbEnter[k] > r.n || cbEnter[k] < r.must {
+			add("C04/server-callback-delivery", "server call %s was sent %d times (%d of them certainly before the client stopped) and handed to OnCallback %d times", r.example, r.n, r.must, cbEnter[k])
 		}
 	}
 	// OnStop exactly once, with the first cause
